@@ -783,7 +783,10 @@ def adapt_typehints(
             with suppress(*json_or_yaml_loader_exceptions):
                 val = json_or_yaml_load(val)
         if typehint is float and isinstance(val, int) and not isinstance(val, bool):
-            val = float(val)
+            try:
+                val = float(val)
+            except OverflowError as ex:
+                raise_unexpected_value(f"Expected a {typehint}", val, ex)
         if not isinstance(val, typehint) or (typehint in (int, float) and isinstance(val, bool)):
             raise_unexpected_value(f"Expected a {typehint}", val)
 
